@@ -486,3 +486,89 @@ func c19R13(c *Ctx) {
 		c.Violation("", "-", "no-required-propagation-sites", "no definition builder takes RequiredFields() of a part")
 	}
 }
+
+// C10-R15: a field is rendered with its whole tag number. The function that renders a TagValue's
+// bytes takes the tag's digits from a standard integer formatter applied to the tag parameter
+// (strconv.AppendInt / FormatInt / Itoa): a hand-rolled fixed-width rendering drops the leading
+// digits of a tag that does not fit, and the value is written under another tag.
+func c10R15(c *Ctx) {
+	p := c.P
+	fBytes := p.Field(modPath, "TagValue", "bytes")
+	n := 0
+	byFn := map[*ssa.Function][]StoreSite{}
+	for _, st := range p.FieldStores(fBytes) {
+		byFn[st.Fn] = append(byFn[st.Fn], st)
+	}
+	for fn, sts := range byFn {
+		if fn.Signature.Recv() == nil || typeName(fn.Signature.Recv().Type()) != "TagValue" {
+			continue
+		}
+		// only the renderer: it has a Tag parameter
+		tagParam := -1
+		for i, q := range fn.Params {
+			if typeName(q.Type()) == "Tag" {
+				tagParam = i
+			}
+		}
+		if tagParam < 0 {
+			continue
+		}
+		n++
+		ok := false
+		for _, st := range sts {
+			if p.Origin(st.Store.Val).Mentions(func(x *Org) bool {
+				if !(x.IsCallTo("strconv.AppendInt") || x.IsCallTo("strconv.FormatInt") || x.IsCallTo("strconv.Itoa") || x.IsCallTo("strconv.AppendUint") || x.IsCallTo("strconv.FormatUint")) {
+					return false
+				}
+				for _, a := range x.Args {
+					if a.Mentions(func(y *Org) bool { return y.Kind == "param" && y.Fn == fn && y.Param == tagParam }) {
+						return true
+					}
+				}
+				return false
+			}) {
+				ok = true
+			}
+		}
+		c.Check(ok, FuncName(fn), p.Pos(fn.Pos()), "tag-rendered-whole", "the rendered bytes start from strconv's rendering of the tag parameter",
+			"no value stored into the field's bytes comes from a standard integer rendering of the tag parameter: a tag with more digits than a hand-rolled rendering allows is written without its leading digits, and the value appears under another tag")
+	}
+	if n == 0 {
+		c.Violation("", "-", "no-field-renderer", "no method of TagValue with a Tag parameter stores the rendered bytes")
+	}
+}
+
+// C12-R11: a frame starts at the first begin marker. The function that looks for the start of the
+// next message hands back the result of the refilling search for the marker as it is: it does not
+// inspect the bytes of the window itself (skipping a marker because of what precedes it loses a
+// well-formed message that follows separator bytes of that kind).
+func c12R11(c *Ctx) {
+	p := c.P
+	pi := getParser(p)
+	n := 0
+	for _, fn := range pi.methods {
+		isStart := false
+		for _, cl := range Calls(fn) {
+			for _, a := range cl.Common().Args {
+				if s, ok := p.Origin(a).ConstStringVal(); ok && s == "8=" {
+					isStart = true
+				}
+			}
+		}
+		if !isStart || fn == pi.refill {
+			continue
+		}
+		n++
+		looks := ""
+		ForEachInstr(fn, func(in ssa.Instruction) {
+			if ia, ok := in.(*ssa.IndexAddr); ok && p.Origin(ia.X).Mentions(func(x *Org) bool { return x.Kind == "field" && x.Field == pi.fBuf }) {
+				looks = p.InstrPos(in)
+			}
+		})
+		c.Check(looks == "", FuncName(fn), p.Pos(fn.Pos()), "start-is-first-marker", "the start finder returns the first marker without looking at the window's bytes",
+			"the function that finds the start of a message inspects bytes of the window itself (at "+looks+") besides searching for the begin marker: a marker is skipped because of the bytes around it, so a well-formed message that follows separator bytes of that kind is never framed")
+	}
+	if n == 0 {
+		c.Violation("", "-", "no-start-finder", "no parser method searches for the begin marker")
+	}
+}
